@@ -1693,7 +1693,7 @@ class Calendar(Component):
         """
         tzids = self.get_used_tzids()
         for timezone in self.timezones:
-            tzids.remove(timezone.tz_name)
+            tzids.discard(timezone.tz_name)
         return tzids
 
     @property
